@@ -340,6 +340,17 @@ let register (reg : string -> (Sx.t list -> Sx.t) -> unit) : unit =
         let s = StampRace.run false StampRace.init (rd_list rd_bool sched) in
         L [wr_bool (StampRace.is_served s.StampRace.p0); wr_bool (StampRace.is_served s.StampRace.p1)]
       | _ -> raise (Bad "stamp_race arity"));
+  (* the registered order satisfies the comparator of sortByPathLongest: no later upstream is `less` than an earlier one *)
+  reg "upstream_sorted" (function
+      | [ups] ->
+        let l = rd_list (function
+            | L [i; p; rw] -> { Upstream.u_id = rd_nat i; u_path = rd_str p; u_rewrite = rd_bool rw }
+            | v -> raise (Bad ("bad upstream " ^ to_string v))) ups in
+        let rec ok = function
+          | [] -> true
+          | a :: rest -> List.for_all (fun b -> not (Upstream.less b a)) rest && ok rest in
+        wr_bool (ok l)
+      | _ -> raise (Bad "upstream_sorted arity"));
   reg "upstream_route" (function
       | [ups; mt; mpath; upath; probe] ->
         let l = rd_list (function
